@@ -266,6 +266,8 @@ def str_shim_factory():
         def __new__(cls, x="", *a, **kw):
             if isinstance(x, (SymStr, SymText)):
                 return x
+            if isinstance(x, core.SymBytes) and (a or kw):  # str(b, "utf-8"[, errors]) is b.decode(...)
+                return x.decode(*a, **kw)
             return str(x, *a, **kw)
 
     return StrShim
@@ -353,3 +355,73 @@ def dict_get(container, key, default=None):
     if type(key) is SymInt:
         return _lookup(container, key, default, None)
     return container.get(key, default)
+
+
+class CodecsShim:
+    """the name `codecs` inside a repository module: the C-level decoders cannot take a proxy; with symbolic bytes the UTF-8 /
+    ASCII / Latin-1 entry points go through the engine's decoder (three-way fork against the reference DFA), everything else is the
+    real module"""
+    import codecs as _real
+
+    @staticmethod
+    def _decode_prefix(b, errors, final):
+        import z3
+        from . import utf8ref
+        from .strs import decode_bytes
+        if final:
+            return decode_bytes(b, "utf-8", errors), len(b.b)
+        # final=False: an incomplete sequence at the end is left unconsumed.  Fork over its length k (0..3): b[:n-k] must decode
+        # strictly and, for k > 0, the last k bytes leave the reference DFA in a non-accepting, non-dead state
+        n = len(b.b)
+        terms = [x if not isinstance(x, int) else z3.BitVecVal(x, 8) for x in b.b]
+        for k in range(0, min(3, n) + 1):
+            head_ok = utf8ref.valid_term(terms[:n - k])
+            if k == 0:
+                cond = head_ok
+            else:
+                st = utf8ref.state_term(terms[n - k:])
+                inc = z3.And(st != 0, st != 8)
+                if k == 2:
+                    # CPython's decoder judges an ED xx pair (surrogate range) only once the third byte is there
+                    t0, t1 = terms[n - 2], terms[n - 1]
+                    inc = z3.Or(inc, z3.And(t0 == 0xED, z3.UGE(t1, 0x80), z3.ULE(t1, 0xBF)))
+                cond = z3.And(head_ok, inc)
+            if core.CTX.branch(cond):
+                head = core.mk_bytes(b.b[:n - k])
+                if isinstance(head, core.SymBytes):
+                    return decode_bytes(head, "utf-8", errors), n - k
+                return head.decode("utf-8", errors), n - k
+        raise UnicodeDecodeError("utf-8", b"?", 0, 1, "invalid start byte (symbolic)")
+
+    @classmethod
+    def utf_8_decode(cls, b, errors="strict", final=False):
+        if isinstance(b, core.SymBytes):
+            return cls._decode_prefix(b, errors or "strict", final)
+        return cls._real.utf_8_decode(b, errors, final)
+
+    @classmethod
+    def decode(cls, obj, encoding="utf-8", errors="strict"):
+        if isinstance(obj, core.SymBytes):
+            return obj.decode(encoding, errors)
+        return cls._real.decode(obj, encoding, errors)
+
+    @classmethod
+    def ascii_decode(cls, b, errors="strict"):
+        if isinstance(b, core.SymBytes):
+            return b.decode("ascii", errors or "strict"), len(b.b)
+        return cls._real.ascii_decode(b, errors)
+
+    @classmethod
+    def latin_1_decode(cls, b, errors="strict"):
+        if isinstance(b, core.SymBytes):
+            return b.decode("latin-1", errors or "strict"), len(b.b)
+        return cls._real.latin_1_decode(b, errors)
+
+
+class _CodecsMeta(type):
+    def __getattr__(cls, k):
+        import codecs
+        return getattr(codecs, k)
+
+
+CodecsShim = _CodecsMeta("CodecsShim", (CodecsShim,), {})
